@@ -894,6 +894,13 @@ class MasterSim(object):
     def _forget_app(self, name):
         if name in self.app_order:
             self.app_order.remove(name)
+        # the assignment in effect now (by the allocations the master has
+        # loaded) is the last one this instance gets
+        if name in self.decl_apps and name not in getattr(self, 'gone', ()):
+            label, traits, _prio = self.assignment_of(name)
+            self.decl_apps[name]['label'] = label
+            self.decl_apps[name]['traits'] = \
+                self.decl_apps[name]['inst_traits'] | traits
         self.gone = getattr(self, 'gone', set())
         self.gone.add(name)
 
